@@ -7,12 +7,14 @@ of the remote party (also replies no script produces), several limiters on one s
   ctx_error_touches_nothing, rescue_mode_ignores_context, forged_reply_token, rescue_grant_needs_n_le_burst
   allow_entry_points_forward
   new_period_limit_fields, period_api_window, period_api_take_is_script, period_api_exact_quota,
+  period_refines_spec_windows, period_api_refines_spec (a window PER TAKE: `Align()` over a whole run),
   period_api_never_limits_or_grants, period_limiters_with_other_prefix_independent
   new_token_keys_distinct, new_token_keys_injective, token_api_refines_bucket, token_api_rate_bound,
   token_keys_independent
 -/
 import GoZero.C03.ScriptRun
 import GoZero.C03.Props
+import GoZero.C03.ProofsPeriodW
 namespace GoZero.C03.PropsApi
 open GoZero.C03 Spec
 
@@ -213,6 +215,84 @@ theorem period_limiters_with_other_prefix_independent (s : Store) (pre pre' key 
     (periodScript s (pre' ++ key') q w).1.find (pre ++ key) = s.find (pre ++ key) ∧
     (periodScript s (pre' ++ key') q w).1.clock = s.clock :=
   periodScript_other s (pre ++ key) (pre' ++ key') q w h
+
+/-! ## a window per take: `Align()` over a whole run -/
+
+/-- **Refinement with a window per take.** For every quota and EVERY sequence of takes — each carrying the window
+(≥ 1 s) that ITS `calcExpireSeconds()` computed —, clock advances, outages and recoveries from the empty store, the
+replies of the model are those of the specification by lives: a life per key starts at the take that finds no running
+life and ends exactly `w` seconds later, `w` being the window of THAT take (the windows later takes of the life compute
+are irrelevant); its i-th take is answered `codeOf quota i`; takes during an outage are `(Unknown, err)` and do not count.
+This is the specification the driver's monitor evaluates on aligned sections. -/
+theorem period_refines_spec_windows (quota : Nat) (ops : List POpW) (hw : WinOk ops) :
+    PSys.runW quota PSys.init ops = SpecSysW.run quota SpecSysW.init ops :=
+  period_refines_spec_windows_from quota ops PSys.init SpecSysW.init hw ⟨rfl, rfl, fun _ => rfl⟩
+
+example : PSys.runW 2 PSys.init [.take "a" 3, .take "a" 1, .ft 1000, .take "a" 1, .ft 2000, .take "a" 2, .ft 1999, .take "a" 9]
+    = [some (.allowed, .nil), some (.hitQuota, .nil), none, some (.overQuota, .nil), none, some (.allowed, .nil), none,
+       some (.hitQuota, .nil)] := by decide
+
+/-- what a caller does with a constructed limiter: takes (the limiter reads the local clock: `unix`), and the
+environment: clock advances of the store, outages, recoveries -/
+inductive PApiOp where
+  | ft (ms : Nat)
+  | take (key : String) (unix : Int)
+  | down
+  | up
+  deriving Repr, DecidableEq
+
+/-- the operation on the store a constructed limiter turns it into (`none`: the take panics) -/
+def _root_.GoZero.C03.PLim.toW (l : PLim) : PApiOp → Option POpW
+  | .ft ms => some (.ft ms)
+  | .take key unix => (calcExpireZ l.align l.period unix).map fun w => .take (l.pre ++ key) w.toNat
+  | .down => some .down
+  | .up => some .up
+
+def clocksOk (ops : List PApiOp) : Prop := ∀ k u, PApiOp.take k u ∈ ops → 0 ≤ u
+
+/-- **The whole public API of PeriodLimit refines the specification by lives**: for EVERY constructor argument list
+with `period ≥ 1` (any quota, prefix, any option list — aligned or not) and every sequence of takes at arbitrary
+non-negative local clock readings, store clock advances, outages and recoveries: no take panics, every window is
+`1 … period` seconds, and the replies are those of the specification by lives on the Redis keys `keyPrefix + key` with
+limit `quota`. -/
+theorem period_api_refines_spec (period quota : Int) (pre : String) (opts : List POpt) (hp : 1 ≤ period)
+    (ops : List PApiOp) (hc : clocksOk ops) :
+    ∃ opsW, ops.mapM (newPeriodLimit period quota pre opts).toW = some opsW ∧ WinOk opsW ∧
+      (∀ k w, POpW.take k w ∈ opsW → (w : Int) ≤ period) ∧
+      PSys.runW quota.toNat PSys.init opsW = SpecSysW.run quota.toNat SpecSysW.init opsW := by
+  have key : ∃ opsW, ops.mapM (newPeriodLimit period quota pre opts).toW = some opsW ∧
+      (∀ k w, POpW.take k w ∈ opsW → 1 ≤ w ∧ (w : Int) ≤ period) := by
+    induction ops with
+    | nil => exact ⟨[], rfl, fun _ _ h => by simp at h⟩
+    | cons op rest ih =>
+      obtain ⟨restW, hr, hwr⟩ := ih (fun k u hm => hc k u (List.mem_cons_of_mem _ hm))
+      have hop : ∃ o, (newPeriodLimit period quota pre opts).toW op = some o ∧
+          (∀ k w, o = POpW.take k w → 1 ≤ w ∧ (w : Int) ≤ period) := by
+        cases op with
+        | ft ms => exact ⟨.ft ms, rfl, fun _ _ h => by simp at h⟩
+        | down => exact ⟨.down, rfl, fun _ _ h => by simp at h⟩
+        | up => exact ⟨.up, rfl, fun _ _ h => by simp at h⟩
+        | take k u =>
+          obtain ⟨w, hw, h1, h2, _, _⟩ := period_api_window period quota pre opts u hp (hc k u List.mem_cons_self)
+          refine ⟨.take ((newPeriodLimit period quota pre opts).pre ++ k) w.toNat, by simp [PLim.toW, hw], ?_⟩
+          intro k' w' h
+          simp at h
+          obtain ⟨_, h⟩ := h
+          subst h
+          omega
+      obtain ⟨o, ho, hwo⟩ := hop
+      refine ⟨o :: restW, by simp [List.mapM_cons, ho, hr], ?_⟩
+      intro k w hm
+      rcases List.mem_cons.mp hm with h | h
+      · exact hwo k w h.symm
+      · exact hwr k w h
+  obtain ⟨opsW, h1, h2⟩ := key
+  exact ⟨opsW, h1, fun k w hm => (h2 k w hm).1, fun k w hm => (h2 k w hm).2,
+    period_refines_spec_windows quota.toNat opsW (fun k w hm => (h2 k w hm).1)⟩
+
+example : ([PApiOp.take "u" 1790689016, .take "u" 1790689017, .ft 37383000, .take "u" 1790726399, .ft 1000, .take "u" 1790726400].mapM
+      (newPeriodLimit 86400 2 "sms:" [.align]).toW).map (PSys.runW 2 PSys.init)
+    = some [some (.allowed, .nil), some (.hitQuota, .nil), none, some (.overQuota, .nil), none, some (.allowed, .nil)] := by decide
 
 /-! ## NewTokenLimiter: every rate, burst and key -/
 
